@@ -3,9 +3,9 @@ package gen
 
 import (
 	"fmt"
-	"sort"
 	"math/big"
 	"math/rand"
+	"sort"
 	"strings"
 
 	"github.com/zclconf/go-cty/cty"
